@@ -58,11 +58,11 @@ def trace_sweep(dims, cap, seed=0, reuse=False):
                 return k
         return None
 
-    def merge(a, b):
+    def merge(a, b, *xa, **xk):
         pending["pair"] = which(a)
         return saved[2](a, b)
 
-    def upd_site(left, right, op, tensor, dt):
+    def upd_site(left, right, op, tensor, dt, *xa, **xk):
         fwd = dt > 0
         if "pair" in pending:
             i = pending.pop("pair")
@@ -79,7 +79,7 @@ def trace_sweep(dims, cap, seed=0, reuse=False):
             phase["last"] = ("S", i, fwd)
         return tensor
 
-    def upd_bond(left, right, bond, dt):
+    def upd_bond(left, right, bond, dt, *xa, **xk):
         steps.append(("B", None))
         ops.append([])
         return bond
@@ -246,7 +246,8 @@ def convergence_oracle(args):
             if np.max(np.abs(res[:, -1] - refv)) > (0.02 if mode == "TDVP" else 0.2):
                 return f"{mode} order {order}: final observables differ from exp(-iHT) by {np.max(np.abs(res[:, -1] - refv)):.3e} at dt=0.05"
     if mode == "TDVP":
-        if errs[0] > 1e-5 and errs[1] > errs[0] / 2.8:  # below 1e-5 the error is Krylov / truncation noise, not splitting error
+        floor = 1e-4 if args.get("wide") else 1e-5  # below the floor the error is Krylov / truncation noise, not splitting error
+        if errs[0] > floor and errs[1] > errs[0] / 2.8:
             return f"TDVP order {order}: halving dt reduces the state error only from {errs[0]:.3e} to {errs[1]:.3e} (second order expected)"
     else:
         if errs[0] > 1e-5 and errs[1] > errs[0] / 1.5:
